@@ -20,7 +20,8 @@ CLAIMED = {
         "Searches the type-expression x value space with a grammar-based generator and compares every from_data verdict and result "
         "(deep exact-type comparison) with an independent reference interpreter of the documented rules; failures are bucketed by the "
         "smallest failing sub-type; independently of the verdict oracle (also in its unspecified cells) every returned value must be shaped like an "
-        "image of T at every depth (pv/typed.py: exactly int where int is declared, list for List, ...). Evidence that the property held on "
+        "image of T at every depth (pv/typed.py: exactly int where int is declared, list for List, ...), and an accepted instance of a subclass of an interchange "
+        "type (user subclass, a str subclass whose __str__ is not its text, mixin enum member; suite subclass-inputs) converts to the plain value it carries. Evidence that the property held on "
         "everything explored, with the class histogram of what was explored.",
         "Trusts the reference interpreter (pv/tg.py, pv/cg.py), stdlib constructors, and the list of unspecified cells in DESIGN.md section 2.",
         "DESIGN.md section 5, C01",
@@ -91,7 +92,8 @@ CLAIMED = {
         "Hypothesis type-directed generation with recording spy containers; before/after deep-snapshot oracle",
         "For every generated (type, value) of both verdicts, every dict/list in the value is a spy subclass recording mutator calls; a deep "
         "snapshot (types, contents, key order) before must equal the one after from_data, convert, Cls.from_data, keyword and positional "
-        "construction, make_unchecked and from_dict_unchecked (defaulted fields left out), and into_data must leave the typed value unchanged.",
+        "construction, make_unchecked and from_dict_unchecked (defaulted fields left out), and into_data must leave the typed value unchanged; "
+        "suite inserting-maps gives every mapping as a defaultdict (lookup inserts) with entries taken away, against struct literals, Dict and dataclass targets.",
         "A mutation through C-level dict/list APIs that bypass subclass methods is seen by the snapshot only.",
         "DESIGN.md section 5, C09",
     ),
